@@ -3,7 +3,7 @@ import gc
 import itertools
 
 from .. import sched
-from ..core import Acc, Violation, run_hypothesis, shard_seed, describe_exc
+from ..core import Acc, Violation, run_hypothesis, shard_seed, describe_exc, lru_cached_functions, clear_lru_caches
 
 PROPERTY = 'C13'
 RULE = ('(a) schedules: 2-3 worker threads each compile and evaluate a distinct, never-before-seen filter on a shared grid '
@@ -130,7 +130,10 @@ def run_schedule(nthreads, schedule, salt):
             return [r['id'] for r in g.filter(text)]
         return fn
     r = sched.Run(nthreads, schedule, WHERE)
-    r.run([worker(t) for t, _ in filters])
+    try:
+        r.run([worker(t) for t, _ in filters])
+    except sched.SchedulerDeadlock as e:
+        raise Violation('threads-never-finish', case, 'no thread is paused by the scheduler and none makes progress: %s' % e)
     case['resumed'] = r.trace
     filters = [(text, expected(pred, g)) for text, pred in filters]
     for i, (text, want) in enumerate(filters):
@@ -168,12 +171,18 @@ def history_check(case):
     except ImportError:  # pragma: no cover
         from backports.functools_lru_cache import lru_cache
     g = shared_grid()
-    orig = gf._filter_function
+    cached = lru_cached_functions(gf)
     cap = case['capacity']
-    if cap != gf.FILTER_CACHE_LRU_SIZE:
-        gf._filter_function = lru_cache(maxsize=cap)(orig.__wrapped__)
+    replaced = None
+    if cap < 100 and len(cached) == 1:
+        replaced = cached[0]
+        setattr(gf, replaced[0], lru_cache(maxsize=cap)(replaced[1].__wrapped__))
     else:
-        orig.cache_clear()
+        # capacity 500 stands for "the cache as it is"; so does a small capacity when there is no single
+        # lru_cache-wrapped compile function to re-wrap
+        clear_lru_caches(gf)
+        cap = getattr(gf, 'FILTER_CACHE_LRU_SIZE', None) or 500
+    get_function = getattr(gf, 'filter_function', None)
     try:
         pool = fresh_filters(case['pool'], case.get('salt', 0))
         held = {}
@@ -213,7 +222,9 @@ def history_check(case):
                     if i not in seen:
                         seen.append(i)
                 elif op == 'hold':
-                    held[i] = gf.filter_function(text)
+                    if get_function is None:
+                        continue
+                    held[i] = get_function(text)
                     got = want
                 elif op == 'call_old':
                     if i not in held:
@@ -233,8 +244,9 @@ def history_check(case):
                     step, op, i, text, got, want), (op,))
         return len(seen) > cap
     finally:
-        gf._filter_function = orig
-        orig.cache_clear()
+        if replaced is not None:
+            setattr(gf, replaced[0], replaced[1])
+        clear_lru_caches(gf)
 
 
 def plan(tier, seed, excl):
